@@ -9,7 +9,7 @@ rsync -a --exclude .git /repo/ "$SCR/repo/" || exit 2
 HEAD=$(git -C /repo log --format=%h -1)
 cd "$SCR/repo" || exit 2
 PYTHONPATH="$SCR/repo" timeout 600 /venv/bin/python "$SRC/demo.py" > "$SCR/demo_clean.log" 2>&1; RC_CLEAN=$?
-if ! patch -p1 -s < "$SRC/patch.diff" > "$SCR/patch.log" 2>&1; then
+if ! patch -p1 -s --no-backup-if-mismatch < "$SRC/patch.diff" > "$SCR/patch.log" 2>&1; then
   echo "$ID: PATCH DOES NOT APPLY to $HEAD"; rm -rf "$SCR"; exit 3
 fi
 PYTHONPATH="$SCR/repo" timeout 600 /venv/bin/python "$SRC/demo.py" > "$SCR/demo_mut.log" 2>&1; RC_MUT=$?
@@ -19,7 +19,7 @@ echo "$SUITE" | grep -q " 869 passed" && echo "$SUITE" | grep -q "15 failed" && 
 echo "$ID: clean_demo_rc=$RC_CLEAN mutated_demo_rc=$RC_MUT suite='$SUITE' confirmed=$OK"
 if [ "$OK" = yes ]; then
   mkdir -p "$HERE/seeded/$ID"
-  ( cd "$SCR/repo" && diff -ruN --exclude=__pycache__ /repo/modelx modelx | sed "s#^--- /repo/#--- a/#; s#^+++ modelx#+++ b/modelx#" ) > "$HERE/seeded/$ID/patch.diff"
+  ( cd "$SCR/repo" && diff -ruN --exclude=__pycache__ --exclude="*.orig" --exclude="*.rej" /repo/modelx modelx | sed "s#^--- /repo/#--- a/#; s#^+++ modelx#+++ b/modelx#" ) > "$HERE/seeded/$ID/patch.diff"
   cp "$SRC/demo.py" "$HERE/seeded/$ID/demo.py"
   /venv/bin/python - "$SRC/meta.json" "$HERE/seeded/$ID/meta.json" "$HEAD" "$RC_CLEAN" "$RC_MUT" "$SUITE" <<'PY'
 import json, sys
